@@ -41,7 +41,7 @@
         const Rot R2 = set3(space, ax, th);
         c.cover(std::string("rt-rot3/") + seqName(space, 3, ax) + "/" + how + "/" + cls + "/" + k.prec);
         c.obs(std::string("rt3.") + cls);
-        k.num(k.keyR("rt-rot", api, cls), rr::maxAbsDiff(toM(R2), Rm), 10 * k.tol,
+        k.num(k.keyR(cls[0] == 'r' ? "rt-rot" : "rt-rot-gimbal", api, cls), rr::maxAbsDiff(toM(R2), Rm), 10 * k.tol,
               [&] { return k.witM(toM(R2), &Rm).set("seq", seqName(space, 3, ax)).set("cond", (double)cnd).set("how", how); });
         // documented ranges of the returned angles
         const P pi = NTraits<P>::getPi(), e = (P)k.tol;
